@@ -560,8 +560,40 @@ func genShared(g *gen, w *bufio.Writer, rounds int) {
 			return sb.String()
 		}
 		want := compute()
+		// conversions of DIFFERENT shared operands in flight at the same time (each goroutine walks the operands in
+		// its own order): explicit-precision formatting (a rounded scratch copy), fmt verbs, and parsing the text back
+		item := func(i int) (r string) {
+			defer func() {
+				if e := recover(); e != nil {
+					r = fmt.Sprint("panic: ", e)
+				}
+			}()
+			x := xs[i]
+			var sb strings.Builder
+			sb.WriteString(x.Text('e', 12))
+			sb.WriteString(x.Text('g', 5))
+			sb.WriteString(x.Text('f', 3))
+			sb.WriteString(fmt.Sprintf("%.7e|%12.4g|%v", x, x, x))
+			t := x.Text('e', -1)
+			if y, _, err := new(decimal.Decimal).SetPrec(x.Prec()).Parse(t, 10); err != nil || y.Cmp(x) != 0 {
+				sb.WriteString("|parse differs")
+			}
+			if y, ok := new(decimal.Decimal).SetPrec(x.Prec()).SetString(x.Text('g', -1)); !ok || y.Cmp(x) != 0 {
+				sb.WriteString("|setstring differs")
+			}
+			y := new(decimal.Decimal).SetPrec(x.Prec())
+			if b, err := x.MarshalText(); err != nil || y.UnmarshalText(b) != nil || y.Cmp(x) != 0 {
+				sb.WriteString("|unmarshal differs")
+			}
+			return sb.String()
+		}
+		wantItem := make([]string, nops)
+		for i := range xs {
+			wantItem[i] = item(i)
+		}
 		k := []int{2, 4, 8, 16}[g.r.Intn(4)]
 		res := make([]string, k)
+		itemsOK := make([]bool, k)
 		var wg sync.WaitGroup
 		for j := 0; j < k; j++ {
 			wg.Add(1)
@@ -571,12 +603,25 @@ func genShared(g *gen, w *bufio.Writer, rounds int) {
 					runtime.Gosched()
 				}
 				res[j] = compute()
+				ok := true
+				for rep := 0; rep < 12; rep++ {
+					for i := range xs {
+						ii := (i + j + rep) % nops
+						if item(ii) != wantItem[ii] {
+							ok = false
+						}
+						if (i+j)%2 == 0 {
+							runtime.Gosched()
+						}
+					}
+				}
+				itemsOK[j] = ok
 			}(j)
 		}
 		wg.Wait()
 		okAll := true
 		for j := range res {
-			if res[j] != want {
+			if res[j] != want || !itemsOK[j] {
 				okAll = false
 			}
 		}
